@@ -194,6 +194,157 @@ async fn gate_probe(address: &str) -> Result<(usize, usize), String> {
     Ok((ok, refused))
 }
 
+
+/// ---- 7. the wire path. An address travels: transport peer info of B (SocketAddr::to_string) -> multiaddr_from_address ->
+/// Display -> routing table of B -> B's find-node reply -> dial_candidate of A -> connect_peer. Observed end to end on real
+/// managers over the in-memory hub: the address A finally dials for C must be C's address. And `dial_candidate` is probed with
+/// every textual form through a harness endpoint whose reply names C under that form.
+fn net_segment(t: &mut Trace, n_addr: usize) -> Result<(), String> {
+    use crate::net::{self, Endpoint, Fake, FakeReply, Hub};
+    use rand::SeedableRng;
+    use std::time::Duration;
+    let mut rng = common::rng(1907);
+    let mut addrs: Vec<SocketAddr> = vec![
+        "45.33.12.9:1", "8.8.4.4:443", "203.0.113.77:65535", "100.64.3.2:9000", "[2001:db8::1]:9000", "[2a00:1450:4001:81b::200e]:443",
+        "[fd12:3456:789a::1]:7000", "[fe80::dead:beef:1:2]:65535", "[::1]:9001", "127.0.0.1:9002", "[::ffff:1.2.3.4]:80", "[1:2:3:4:5:6:7:8]:1",
+    ]
+    .iter()
+    .filter_map(|s| s.parse().ok())
+    .collect();
+    while addrs.len() < n_addr {
+        let v4 = rng.gen_bool(0.6);
+        let port = rng.gen_range(1..=65535u16);
+        let ip: IpAddr = if v4 {
+            IpAddr::V4(Ipv4Addr::new(rng.gen_range(1..224), rng.r#gen(), rng.r#gen(), rng.gen_range(1..255)))
+        } else {
+            let mut s: [u16; 8] = rng.r#gen();
+            s[0] = 0x2000 | (s[0] & 0x1fff);
+            IpAddr::V6(Ipv6Addr::new(s[0], s[1], s[2], s[3], s[4], s[5], s[6], s[7]))
+        };
+        addrs.push(SocketAddr::new(ip, port));
+    }
+    addrs.truncate(n_addr.max(4));
+    let rt = net::paused_rt();
+    let to = Duration::from_secs(2);
+    // outcome of A's dials since `from_idx` with respect to the true address `x` of C
+    fn dial_outcome(hub: &Hub, a_id: &str, from_idx: usize, x: &SocketAddr, others: &[String]) -> (&'static str, Vec<String>) {
+        let st = hub.st.lock().expect("hub");
+        let mine: Vec<String> = st.dials.iter().skip(from_idx).filter(|d| d.0 == a_id).map(|d| d.1.clone()).collect();
+        let mut out = "error";
+        for d in &mine {
+            match d.parse::<SocketAddr>() {
+                Ok(p) if &p == x => {
+                    out = "same";
+                    break;
+                }
+                Ok(p) if !others.contains(&p.to_string()) => out = "different",
+                _ => {}
+            }
+        }
+        (out, mine)
+    }
+    for (i, x) in addrs.iter().enumerate() {
+        for dir in ["b_dials_c", "c_dials_b"] {
+            let x2 = *x;
+            let seed = rng.r#gen::<u64>();
+            let r: Result<Value, String> = rt.block_on(async move {
+                let mut r2 = rand_chacha::ChaCha8Rng::seed_from_u64(seed);
+                let hub = Hub::new(rand_chacha::ChaCha8Rng::seed_from_u64(seed ^ 1), 3);
+                let a = net::spawn_real(&hub, &net::hex_id(&mut r2), &net::addr_for(1), to, 8).await?;
+                let b = net::spawn_real(&hub, &net::hex_id(&mut r2), &net::addr_for(2), to, 8).await?;
+                let c = net::spawn_real(&hub, &net::hex_id(&mut r2), &x2.to_string(), to, 8).await?;
+                if dir == "b_dials_c" {
+                    let _ = b.mgr.connect_to_peer(&c.addr).await;
+                } else {
+                    let _ = c.mgr.connect_to_peer(&b.addr).await;
+                }
+                net::settle().await;
+                let _ = a.mgr.connect_to_peer(&b.addr).await;
+                net::settle().await;
+                let d0 = hub.st.lock().expect("hub").dials.len();
+                let f0 = hub.seq();
+                let mut key = [0u8; 32];
+                r2.fill(&mut key);
+                let res = tokio::time::timeout(Duration::from_secs(600), a.mgr.find_closest_nodes(&key, 8)).await;
+                net::settle().await;
+                // what B's replies to A said about C
+                let mut wire: Option<String> = None;
+                for f in hub.frames_since(f0) {
+                    if f.from == b.id && f.to == a.id
+                        && let Some(m) = &f.dht
+                        && let Some(saorsa_core::dht_network_manager::DhtNetworkResult::NodesFound { nodes, .. }) = &m.result
+                    {
+                        for n in nodes {
+                            if n.peer_id == c.id {
+                                wire = Some(n.address.clone());
+                            }
+                        }
+                    }
+                }
+                let others = vec![a.addr.clone(), b.addr.clone()];
+                let (out, dialled) = dial_outcome(&hub, &a.id, d0, &x2, &others);
+                let reached = hub.st.lock().expect("hub").conns.iter().any(|(p, q)| (p == &a.id && q == &c.id) || (p == &c.id && q == &a.id));
+                let listed = res.as_ref().ok().and_then(|r| r.as_ref().ok()).map(|v| v.iter().any(|n| n.peer_id == c.id)).unwrap_or(false);
+                let ev = json!({"ev":"RT","site":format!("wire_reply_dial_{dir}"),"a":addr_json(&x2),
+                    "out": if wire.is_none() { "none" } else if out == "same" && !reached { "error" } else { out },
+                    "wire": wire, "dialled": dialled, "reached": reached, "in_result": listed});
+                for n in [a, b, c] {
+                    hub.set_silent(&n.id, true);
+                    let _ = tokio::time::timeout(Duration::from_secs(3600), n.mgr.stop()).await;
+                    let _ = tokio::time::timeout(Duration::from_secs(3600), n.transport.stop()).await;
+                }
+                Ok(ev)
+            });
+            let ev = r?;
+            if let Some(w) = ev["wire"].as_str() {
+                t.ev(json!({"ev":"Produce","producer":"Reply","form":classify(w),"a":addr_json(x),"text":w}));
+            }
+            t.ev(ev);
+        }
+        // dial_candidate probed with every form (first addresses only: one IPv4, one IPv6 at least)
+        if i < 6 {
+            for f in FORMS {
+                let Some(s) = render(x, f) else { continue };
+                let x2 = *x;
+                let seed = rng.r#gen::<u64>();
+                let s2 = s.clone();
+                let r: Result<Value, String> = rt.block_on(async move {
+                    let mut r2 = rand_chacha::ChaCha8Rng::seed_from_u64(seed);
+                    let hub = Hub::new(rand_chacha::ChaCha8Rng::seed_from_u64(seed ^ 1), 0);
+                    let a = net::spawn_real(&hub, &net::hex_id(&mut r2), &net::addr_for(1), to, 8).await?;
+                    let c = net::spawn_real(&hub, &net::hex_id(&mut r2), &x2.to_string(), to, 8).await?;
+                    let fid = net::hex_id(&mut r2);
+                    let faddr = net::addr_for(3);
+                    hub.register(&fid, &faddr, Endpoint::Fake(Fake { lookup_reply: FakeReply::Nodes(vec![(c.id.clone(), s2.clone())]), ack_put: false }));
+                    let _ = a.mgr.connect_to_peer(&faddr).await;
+                    net::settle().await;
+                    let d0 = hub.st.lock().expect("hub").dials.len();
+                    let mut key = [0u8; 32];
+                    r2.fill(&mut key);
+                    let h = tokio::spawn({
+                        let m = a.mgr.clone();
+                        async move { tokio::time::timeout(Duration::from_secs(600), m.find_closest_nodes(&key, 8)).await.is_ok() }
+                    });
+                    let fin = h.await;
+                    net::settle().await;
+                    let others = vec![a.addr.clone(), faddr.clone()];
+                    let (out, dialled) = dial_outcome(&hub, &a.id, d0, &x2, &others);
+                    let out = if matches!(fin, Err(ref e) if e.is_panic()) { "panic" } else { out };
+                    let ev = json!({"ev":"Consume","consumer":"Dial","form":f,"a":addr_json(&x2),"out":out,"text":s2,"dialled":dialled});
+                    for n in [a, c] {
+                        hub.set_silent(&n.id, true);
+                        let _ = tokio::time::timeout(Duration::from_secs(3600), n.mgr.stop()).await;
+                        let _ = tokio::time::timeout(Duration::from_secs(3600), n.transport.stop()).await;
+                    }
+                    Ok(ev)
+                });
+                t.ev(r?);
+            }
+        }
+    }
+    Ok(())
+}
+
 pub fn drive(a: &Args) -> i32 {
     let out = a.str("out", "/dev/stdout");
     let samples = a.num("samples", 100_000);
@@ -412,6 +563,10 @@ pub fn drive(a: &Args) -> i32 {
                 Err(_) => t.ev(json!({"ev":"Consume","consumer":"AddNode","form":f,"a":addr_json(sa),"out":"panic"})),
             }
         }
+    }
+    if let Err(e) = net_segment(&mut t, a.num("net_addrs", 12) as usize) {
+        eprintln!("c19: net segment: {e}");
+        return 2;
     }
     t.ev(json!({"ev":"Interop"}));
     let n = t.finish();
